@@ -27,21 +27,22 @@ Proof. unfold CM.from_runtime_repr, JM.from_runtime_repr. destruct (CM.check_val
 
 Section WithTok.
   Variable qtok : Q -> str.
+  Variable reo : option (list (list Q)).
 
   (** every valid extension can be serialised; the text is the printed content *)
   Theorem to_json_valid e :
-    valid e -> JM.to_json CM.check_valid (to_content qtok e) = Ok (JM.print (to_content qtok e)).
-  Proof. intros Hv. unfold JM.to_json. rewrite (proj1 (valid_to_content qtok e Hv)). reflexivity. Qed.
+    valid e -> JM.to_json CM.check_valid (to_content_r qtok reo e) = Ok (JM.print (to_content_r qtok reo e)).
+  Proof. intros Hv. unfold JM.to_json. rewrite (proj1 (valid_to_content qtok reo e Hv)). reflexivity. Qed.
 
   Theorem serialisable e :
     valid e ->
-    exists s, JM.to_json CM.check_valid (to_content qtok e) = Ok s /\
-              (ext_wf_json e = true -> aff_toks_ok qtok (hdr_of e) = true ->
-               JM.from_json CM.check_valid s = Ok (to_content qtok e)).
+    exists s, JM.to_json CM.check_valid (to_content_r qtok reo e) = Ok s /\
+              (ext_wf_json e = true -> aff_toks_ok qtok (hdr_of e) = true -> reo_toks_ok qtok reo = true ->
+               JM.from_json CM.check_valid s = Ok (to_content_r qtok reo e)).
   Proof.
-    intros Hv. exists (JM.print (to_content qtok e)). split; [apply to_json_valid; exact Hv|].
-    intros Hwf Ha. apply (JS.from_to CM.check_valid); [|apply to_json_valid; exact Hv].
-    apply wf_to_content; [apply Hv | exact Hwf | exact Ha].
+    intros Hv. exists (JM.print (to_content_r qtok reo e)). split; [apply to_json_valid; exact Hv|].
+    intros Hwf Ha Hr. apply (JS.from_to CM.check_valid); [|apply to_json_valid; exact Hv].
+    apply wf_to_content; [apply Hv | exact Hwf | exact Ha | exact Hr].
   Qed.
 
   (** every extension produced by a history of operations (each used inside its precondition) can be written,
@@ -51,14 +52,14 @@ Section WithTok.
     forall (ops : list (op jv)) (e r : jext),
       valid e -> nondegenerate e -> ops_dom veqb vnone ops e -> run veqb vnone ops e = Ok r ->
       valid r /\ nondegenerate r /\
-      CM.check_valid (to_content qtok r) = Ok tt /\
-      exists s, JM.to_json CM.check_valid (to_content qtok r) = Ok s /\
-                (ext_wf_json r = true -> aff_toks_ok qtok (hdr_of r) = true ->
-                 JM.from_json CM.check_valid s = Ok (to_content qtok r)).
+      CM.check_valid (to_content_r qtok reo r) = Ok tt /\
+      exists s, JM.to_json CM.check_valid (to_content_r qtok reo r) = Ok s /\
+                (ext_wf_json r = true -> aff_toks_ok qtok (hdr_of r) = true -> reo_toks_ok qtok reo = true ->
+                 JM.from_json CM.check_valid s = Ok (to_content_r qtok reo r)).
   Proof.
     intros Hrefl ops e r Hv Hn Hd Hrun.
     destruct (run_valid veqb vnone Hrefl ops e r Hv Hn Hd Hrun) as [Hv' Hn'].
-    split; [exact Hv'|]. split; [exact Hn'|]. split; [apply (valid_to_content qtok r Hv')|].
+    split; [exact Hv'|]. split; [exact Hn'|]. split; [apply (valid_to_content qtok reo r Hv')|].
     apply serialisable. exact Hv'.
   Qed.
 
@@ -97,17 +98,18 @@ Section WithTok.
     (forall v, veqb v v = true) ->
     forall (ops : list (op jv)) (e r : jext),
       valid e -> nondegenerate e -> ops_dom veqb JNull ops e -> jsonable e -> ops_jsonable ops ->
+      reo_toks_ok qtok reo = true ->
       run veqb JNull ops e = Ok r ->
       valid r /\ nondegenerate r /\ jsonable r /\
-      JM.to_json CM.check_valid (to_content qtok r) = Ok (JM.print (to_content qtok r)) /\
-      JM.from_json CM.check_valid (JM.print (to_content qtok r)) = Ok (to_content qtok r).
+      JM.to_json CM.check_valid (to_content_r qtok reo r) = Ok (JM.print (to_content_r qtok reo r)) /\
+      JM.from_json CM.check_valid (JM.print (to_content_r qtok reo r)) = Ok (to_content_r qtok reo r).
   Proof.
-    intros Hrefl ops e r Hv Hn Hd Hj Ho Hrun.
+    intros Hrefl ops e r Hv Hn Hd Hj Ho Hreo Hrun.
     destruct (run_valid veqb JNull Hrefl ops e r Hv Hn Hd Hrun) as [Hv' Hn'].
     pose proof (run_jsonable veqb ops e r Hrun Hj Ho) as [Hw Ha].
     split; [exact Hv'|]. split; [exact Hn'|]. split; [split; assumption|].
     split; [apply to_json_valid; exact Hv'|].
     apply (JS.from_to CM.check_valid); [|apply to_json_valid; exact Hv'].
-    apply wf_to_content; [apply Hv' | exact Hw | exact Ha].
+    apply wf_to_content; [apply Hv' | exact Hw | exact Ha | exact Hreo].
   Qed.
 End WithTok.
